@@ -268,12 +268,25 @@ def group_outputs(case, r):
     """for a case whose term is [group_by f inner] (inner non-empty): list of (group items, outputs of that group)
     taken from the real boundary traces at the head and tail of the inner pipeline"""
     t = case['term']
-    if not (len(t) == 1 and t[0][0] == 'group_by' and t[0][2]) or not r.get('bounds'):
+    if not (len(t) == 1 and t[0][0] in ('group_by', 'split', 'roll', 'time_split') and t[0][-1]) or not r.get('bounds'):
         return None
     head = r['bounds'].get('/0/in')
-    tail = r['bounds'].get(tail_label(t[0][2], '/0'))
+    tail = r['bounds'].get(tail_label(t[0][-1], '/0'))
     if head is None or tail is None:
         return None
-    hl = {tuple(l['key']): l for l in lifetimes(head)}
-    tl = {tuple(l['key']): l for l in lifetimes(tail)}
-    return [(hl[k]['items'], tl.get(k, {'items': None})['items']) for k in hl]
+    if t[0][0] == 'group_by':
+        hl = {tuple(l['key']): l for l in lifetimes(head)}
+        tl = {tuple(l['key']): l for l in lifetimes(tail)}
+        return [(hl[k]['items'], tl.get(k, {'items': None})['items']) for k in hl]
+    # contexts that reuse inner keys: the n-th lifetime of a key at the head is the n-th lifetime of that key at the tail
+    seen, tls = {}, {}
+    for l in lifetimes(tail):
+        tls.setdefault(tuple(l['key']), []).append(l)
+    res = []
+    for l in lifetimes(head):
+        k = tuple(l['key'])
+        n = seen.get(k, 0)
+        seen[k] = n + 1
+        tl = tls.get(k, [])
+        res.append((l['items'], tl[n]['items'] if n < len(tl) else None))
+    return res
